@@ -51,3 +51,49 @@ Proof.
   destruct (Z.eq_dec o w) as [E|E]; [exact E|].
   pose proof (Hc b w LWrite o k Hw Ho (fun H => E (eq_sym H))) as H. cbn in H. discriminate.
 Qed.
+
+(* ---------- lock_all ---------- *)
+Lemma others_survive_try t b w k t' b0 o k0 :
+  try_lock t b w k = Some t' -> In (b0, o, k0) t -> o <> w -> In (b0, o, k0) t'.
+Proof.
+  unfold try_lock. destruct (existsb (blocks b w k) t); [discriminate|]. intros H Hin Hne. injection H as <-.
+  right. apply filter_In. split; [exact Hin|]. unfold mine.
+  destruct (o =? w) eqn:E; [apply Z.eqb_eq in E; contradiction|]. rewrite andb_false_r. reflexivity.
+Qed.
+
+Lemma others_survive_unlock t b w b0 o k0 : In (b0, o, k0) t -> o <> w -> In (b0, o, k0) (unlock t b w).
+Proof.
+  intros Hin Hne. unfold unlock. apply filter_In. split; [exact Hin|]. unfold mine.
+  destruct (o =? w) eqn:E; [apply Z.eqb_eq in E; contradiction|]. rewrite andb_false_r. reflexivity.
+Qed.
+
+Lemma write_lock_needs_free t b w t' o k :
+  try_lock t b w LWrite = Some t' -> In (b, o, k) t -> o = w.
+Proof.
+  unfold try_lock. destruct (existsb (blocks b w LWrite) t) eqn:Ex; [discriminate|]. intros _ Hin.
+  destruct (Z.eq_dec o w) as [E|E]; [exact E|exfalso].
+  assert (existsb (blocks b w LWrite) t = true).
+  { apply existsb_exists. exists (b, o, k). split; [exact Hin|]. unfold blocks. rewrite Z.eqb_refl.
+    destruct (o =? w) eqn:E2; [apply Z.eqb_eq in E2; contradiction|]. reflexivity. }
+  congruence.
+Qed.
+
+(* if the whole call sequence succeeds, then for every byte it write-locks nobody else held
+   any lock on that byte when it started *)
+Theorem run_locks_excludes : forall calls t w t' b o k,
+  run_locks t w calls = Some t' -> write_locks calls b = true -> In (b, o, k) t -> o = w.
+Proof.
+  induction calls as [|[kind b1] r IH]; intros t w t' b o k Hrun Hw Hin; [discriminate Hw|].
+  destruct (Z.eq_dec o w) as [E|E]; [exact E|exfalso].
+  unfold write_locks in Hw. cbn [existsb fst snd] in Hw. apply orb_true_iff in Hw.
+  destruct kind; cbn [run_locks] in Hrun.
+  - destruct (try_lock t b1 w LRead) as [t1|] eqn:E1; [|discriminate].
+    destruct Hw as [Hw|Hw]; [cbn in Hw; discriminate|].
+    apply E. apply (IH t1 w t' b o k Hrun Hw). exact (others_survive_try _ _ _ _ _ _ _ _ E1 Hin E).
+  - destruct (try_lock t b1 w LWrite) as [t1|] eqn:E1; [|discriminate].
+    destruct Hw as [Hw|Hw].
+    + cbn [lk_eqb andb] in Hw. apply Z.eqb_eq in Hw. subst b1. apply E. exact (write_lock_needs_free _ _ _ _ _ _ E1 Hin).
+    + apply E. apply (IH t1 w t' b o k Hrun Hw). exact (others_survive_try _ _ _ _ _ _ _ _ E1 Hin E).
+  - destruct Hw as [Hw|Hw]; [cbn in Hw; discriminate|].
+    apply E. apply (IH _ w t' b o k Hrun Hw). exact (others_survive_unlock _ _ _ _ _ _ Hin E).
+Qed.
